@@ -1,10 +1,14 @@
 SPECIFICATION Spec
 CONSTANTS
-  Addrs = {"a:1", "b:1", "c:1"}
-  Histories = {"fresh", "grew"}
+  AddrSeq <- Universe3
+  Live = {"a:1", "b:1", "c:1"}
+  MaxMult = 2
+  MaxDup = 1
+  Views = {"sorted", "reversed", "rotated"}
   Traces = {"t1", "t2"}
   MaxSends = 2
-INVARIANTS OneOwner AtMostOneHop NoSelfForward
+  Rebuild = "always"
+INVARIANTS TypeOK TableIsCurrent SameListSameOwner OwnerListed OneOwner AtMostOneHop NoSelfForward
 ACTION_CONSTRAINT Dump
 VIEW View
 CHECK_DEADLOCK FALSE
